@@ -61,6 +61,7 @@ def check(rep: Report, ctx: Ctx) -> None:
     r719(rep, ctx)
     r720(rep, ctx)
     r721(rep, ctx)
+    r722(rep, ctx)
 
 
 def scc_order(rep: Report, ctx: Ctx, rule: str, det: Optional[FuncInfo] = None,
@@ -1656,3 +1657,202 @@ def r721(rep: Report, ctx: Ctx) -> None:
              "extraction compute what their callers assume (direction of "
              "the edge, side of the membership test)", 7)
     graph_helpers(rep, ctx, "R7.21")
+
+
+_ATOM = r"(?:P:)?[A-Za-z_][A-Za-z_0-9]*"
+
+
+def _setalg(s: str) -> str:
+    """Set algebra over atoms: ``(A Sub B)`` = ``A.difference(B)``,
+    ``(A BitAnd B)`` = ``A.intersection(B)`` (operands sorted),
+    ``A.difference(B.intersection(A))`` = ``A.difference(B)``."""
+    import re
+    prev = None
+    while prev != s:
+        prev = s
+        s = re.sub(rf"\(({_ATOM}) Sub ({_ATOM})\)", r"\1.difference(\2)", s)
+        s = re.sub(rf"\(({_ATOM}) BitAnd ({_ATOM})\)",
+                   r"\1.intersection(\2)", s)
+        s = re.sub(rf"({_ATOM})\.intersection\(({_ATOM})\)",
+                   lambda m: "{}.intersection({})".format(
+                       *sorted([m.group(1), m.group(2)])), s)
+        s = re.sub(rf"({_ATOM})\.difference\(({_ATOM})\.intersection\("
+                   rf"({_ATOM})\)\)",
+                   lambda m: f"{m.group(1)}.difference("
+                   f"{m.group(3) if m.group(2) == m.group(1) else m.group(2)})"
+                   if m.group(1) in (m.group(2), m.group(3)) else m.group(0),
+                   s)
+    return s
+
+
+def classification(rep: Report, ctx: Ctx, rule: str) -> None:
+    """What counts as start / end / break event and loop-back edge of an
+    SCC.  The table pins the DEFINITION the rest of the extraction is written
+    against (which set is computed from which, under which case split) - not
+    that the definition is right for every graph (it is not: D10)."""
+    from .effspec import effects, expect
+
+    def table(fn: str, abbr: list[tuple[str, str]], names: set[str],
+              rows: list[tuple]) -> None:
+        fi = ctx.func(fn)
+
+        def ab(x):  # type: ignore[no-untyped-def]
+            if isinstance(x, (tuple, list)):
+                return type(x)(ab(y) for y in x)
+            for _ in range(2):
+                for short, long in abbr:
+                    x = x.replace(long, short)
+                x = _setalg(x)
+            return x
+        effs = effects(ctx, fi, names=names)
+        for e in effs:
+            e.recv, e.args, e.guards = ab(e.recv), ab(e.args), ab(e.guards)
+        for what, kind, name, recv, args, must in rows:
+            expect(rep, rule, fi, effs, f"{fi.name}: {what}", kind=kind,
+                   name=name, recv=recv, args=args, must=must)
+    SCC3 = "P:scc_nodes,P:scc_nodes,P:graph"
+    START = ("START", f"get_nodes_with_inedge_not_in_set({SCC3})")
+    MAP = "phi(P:node_to_over_lapping_node_map|dict())"
+    table("calc_components_of_loop_generic", [
+        START, ("C", f"calc_loop_end_break_and_loop_edges(START,P:scc_nodes,"
+                     f"P:graph,{MAP})")],
+        {"calc_loop_end_break_and_loop_edges"}, [
+        ("start events = events of the SCC with a predecessor outside it; "
+         "the other components are computed from them", "call",
+         "calc_loop_end_break_and_loop_edges", "",
+         ("START", "P:scc_nodes", "P:graph", MAP), []),
+        ("components are handed on in the order start, end, break, "
+         "loop-back edges", "ret", "", "", ("(START,C[0],C[1],C[2])",), []),
+    ])
+    END = ("END", "get_end_nodes_using_start_nodes(P:scc_nodes,"
+                  "P:start_nodes,P:graph)")
+    EXIT = ("EXIT", f"get_nodes_with_outedges_not_in_set({SCC3})")
+    BO = ("BO", f"filter_break_out_nodes_based_on_overlaps(EXIT.difference("
+                f"END),{MAP},P:scc_nodes)")
+    has_exit = ("truth", "EXIT", "1")
+    end_exits = "END.intersection(EXIT)"
+    table("calc_loop_end_break_and_loop_edges", [END, EXIT, BO], {
+        "filter_break_out_nodes_based_on_overlaps", "get_outnodes_not_in_set",
+        "get_break_nodes_if_end_to_start_exists", "get_loop_edges"}, [
+        ("break-out candidates = events with a successor outside the SCC "
+         "that are not end events, filtered by the overlap map (an AND fork "
+         "with one branch staying in the loop is not a break)", "call",
+         "filter_break_out_nodes_based_on_overlaps", "",
+         ("EXIT.difference(END)", MAP, "P:scc_nodes"), [has_exit]),
+        ("no end event leaves the loop: every outside successor of a "
+         "candidate is a break event", "call", "get_outnodes_not_in_set", "",
+         ("BO", "P:scc_nodes", "P:graph"),
+         [has_exit, ("truth", end_exits, "0")]),
+        ("some end event leaves the loop: break events are found relative "
+         "to the exit points of the END events", "call",
+         "get_break_nodes_if_end_to_start_exists", "",
+         ("END", "BO", "P:start_nodes", "P:graph", "P:scc_nodes"),
+         [has_exit, ("truth", end_exits, "1")]),
+        ("loop-back edges run from end events to start events", "call",
+         "get_loop_edges", "", ("P:start_nodes", "END", "P:graph"), []),
+    ])
+    fi = ctx.func("calc_loop_end_break_and_loop_edges")
+    effs = effects(ctx, fi)
+    du = [e for e in effs if e.kind == "call" and e.name ==
+          "difference_update" and e.args == ("P:scc_nodes",)]
+    rep.ob(rule, "calc_loop_end_break_and_loop_edges: a break event is never "
+           "an event of the SCC itself", len(du) == 1 and not du[0].guards,
+           fi=fi, node=du[0].node if du else fi.node,
+           detail=f"{len(du)} unconditional difference_update(scc_nodes) on "
+                  "the break set")
+    table("get_end_nodes_using_start_nodes", [], {
+        "get_nodes_with_outedges_in_set",
+        "get_end_nodes_from_potential_end_nodes"}, [
+        ("potential end events = events of the SCC with an edge to a start "
+         "event; judged on the SCC with the edges INTO the start events "
+         "removed", "ret", "", "",
+         ("get_end_nodes_from_potential_end_nodes("
+          "get_nodes_with_outedges_in_set(P:nodes,P:start_nodes,P:graph),"
+          "DiGraph(P:graph.subgraph(P:nodes).copy()))",), []),
+        ("the loop-back edges are cut on the private copy before the "
+         "judgement", "call", "remove_edges_from",
+         "DiGraph(P:graph.subgraph(P:nodes).copy())",
+         ("P:graph.in_edges(P:start_nodes)",), []),
+    ])
+    table("get_end_nodes_from_potential_end_nodes", [], set(), [
+        ("every potential end event is judged against all of them", "ret",
+         "", "", ("{each(P:potential_end_nodes) for.. if "
+                  "is_end_of_potential_ends(each(P:potential_end_nodes),"
+                  "P:potential_end_nodes,P:graph)}",), []),
+    ])
+    table("get_break_nodes_if_end_to_start_exists", [
+        ("XP", "get_outnodes_not_in_set(P:end_nodes,P:start_nodes,P:graph)")],
+        {"get_break_nodes_from_potential_break_outnodes"}, [
+        ("exit points = successors of the end events other than start "
+         "events ...", "call",
+         "get_break_nodes_from_potential_break_outnodes", "",
+         ("P:nodes_without_edge_to_start_nodes", "XP", "P:graph",
+          "P:scc_nodes"), []),
+        ("... and other than end events", "call", "difference_update", "XP",
+         ("P:end_nodes",), []),
+    ])
+    CAND = "each(P:potential_break_outnodes)"
+    INX = "get_innodes_not_in_set(P:exit_points,P:scc_nodes,P:graph)"
+    table("get_break_nodes_from_potential_break_outnodes", [
+        ("OUTC", f"each(get_outnodes_not_in_set({{{CAND}}},P:scc_nodes,"
+                 "P:graph))"), ("INX", INX), ("CAND", CAND)],
+        set(), [
+        ("a break path that rejoins the exit ends in the LAST event before "
+         "an exit point: reachable from the candidate with the other such "
+         "events and the rest of the SCC removed", "call", "add", "set()",
+         ("each(INX)",),
+         [("truth", "has_path(P:graph.copy(),CAND,each(INX))", "1")]),
+        ("(the graph searched is a copy without them)", "call",
+         "remove_nodes_from", "P:graph.copy()",
+         ("((INX Sub {each(INX)}) BitOr (P:scc_nodes Sub {CAND}))",), []),
+        ("a break path that never rejoins the exit starts with its FIRST "
+         "event outside the SCC", "call", "update", "set()",
+         ("[OUTC for.. if all((Not(has_path(P:graph,OUTC,each(INX))) "
+          "for..))]",), []),
+    ])
+    table("get_loop_edges", [], set(), [
+        ("loop-back edges = edges from an end event to a start event",
+         "ret", "", "",
+         ("{each(P:graph.out_edges(P:end_nodes)) for.. if ((each(P:graph."
+          "successors(P:end_nodes)) In P:start_nodes) And (each(P:graph."
+          "out_edges(P:end_nodes))[0] In P:end_nodes))}",), []),
+    ])
+    NODE = "each(P:break_out_nodes)"
+    OV = "do_any_node_sets_have_intersection_with_nodes_to_check(" \
+         f"P:node_to_over_lapping_node_map[{NODE}],P:nodes_to_check)"
+    table("filter_break_out_nodes_based_on_overlaps", [], set(), [
+        ("a candidate without overlap information stays", "call", "add",
+         "set()", (NODE,),
+         [("cmp", NODE, "In", "P:node_to_over_lapping_node_map", "0")]),
+        ("a candidate stays unless one of its overlap groups lies partly "
+         "inside and partly outside the loop", "call", "add", "set()",
+         (NODE,), [("cmp", NODE, "In", "P:node_to_over_lapping_node_map",
+                    "1"), ("truth", OV, "0")]),
+    ])
+    table("does_node_set_have_intersection_with_nodes_to_check", [], set(), [
+        ("an overlap group straddles the loop when some but not all of its "
+         "members lie outside", "ret", "", "", ("True",),
+         [("truth", "(0 Lt len(P:node_set.difference(P:nodes_to_check)) Lt "
+           "len(P:node_set))", "1")]),
+    ])
+    fi = ctx.func("do_any_node_sets_have_intersection_with_nodes_to_check")
+    effs = [e for e in effects(ctx, fi) if e.kind == "ret"]
+    G = "does_node_set_have_intersection_with_nodes_to_check(first(" \
+        "P:node_sets),P:nodes_to_check)"
+    two = len(effs) == 2 and any(
+        e.args == ("True",) and e.guards == [("truth", G, "1")]
+        for e in effs) and any(e.args == ("False",) and not e.guards
+                               for e in effs)
+    one = len(effs) == 1 and not effs[0].guards and effs[0].args == (
+        "any((does_node_set_have_intersection_with_nodes_to_check(each("
+        "P:node_sets),P:nodes_to_check) for..))",)
+    rep.ob(rule, "do_any_node_sets_have_intersection_with_nodes_to_check: "
+           "true exactly when SOME group straddles", one or two, fi=fi,
+           node=fi.node, detail=f"returns {[(e.args, e.guards) for e in effs]}")
+
+
+def r722(rep: Report, ctx: Ctx) -> None:
+    rep.rule("R7.22", "the components of a loop (start, end, break events, "
+             "loop-back edges) are computed as defined: which set from "
+             "which, under which case split", 18)
+    classification(rep, ctx, "R7.22")
